@@ -69,7 +69,7 @@ impl ::vstd::std_specs::cmp::PartialEqSpecImpl for TypePath {
 //@end
 
 //@fn attr.rs MemberAttrs::type_hint
-//@props C02,C05,C06
+//@props C02,C05,C06,C16
 //@spec
     ensures r == spec_type_hint(self, *container_ty), // #dedicated-then-default
 //@closure 0
@@ -93,7 +93,7 @@ impl ::vstd::std_specs::cmp::PartialEqSpecImpl for TypePath {
 //@end
 
 //@fn attr.rs DataTypeAttrs::child_parents_attr
-//@props C03,C06
+//@props C03,C06,C16
 //@spec
     ensures r == spec_child_parents(self, *container_ty), // #dedicated-then-default
 //@closure 0
@@ -106,7 +106,7 @@ impl ::vstd::std_specs::cmp::PartialEqSpecImpl for TypePath {
 
 
 //@fn attr.rs MemberAttrs::ghost
-//@props C05,C06,C12
+//@props C05,C06,C12,C16
 //@spec
     ensures r == spec_ghost(self, *container_ty, *kind), // #dedicated-then-default-for-kind
 //@closure 0
@@ -148,7 +148,7 @@ impl ::vstd::std_specs::cmp::PartialEqSpecImpl for TypePath {
 
 
 //@fn attr.rs MemberAttrs::has_parent_attr
-//@props C03,C06
+//@props C03,C06,C16
 //@spec
     ensures r == (first(refs(self.parent_attrs@), q_parent(*container_ty)) is Some), // #any-default-or-dedicated
 //@closure 0
@@ -164,7 +164,7 @@ impl ::vstd::std_specs::cmp::PartialEqSpecImpl for TypePath {
 //@end
 
 //@fn attr.rs MemberAttrs::iter_for_kind
-//@props C05,C12
+//@props C05,C12,C16
 //@spec
     ensures r.items() == sfilter(refs(self.attrs@), p_kind(*kind, fallible)), // #exactly-the-entries-of-that-kind
 //@closure 0
@@ -172,7 +172,7 @@ impl ::vstd::std_specs::cmp::PartialEqSpecImpl for TypePath {
 //@end
 
 //@fn attr.rs DataTypeAttrs::iter_for_kind
-//@props C04,C12
+//@props C04,C12,C16
 //@spec
     ensures r.items() == sfilter(refs(self.attrs@), p_tkind(*kind, fallible)), // #exactly-the-instructions-of-that-kind
 //@closure 0
@@ -181,7 +181,7 @@ impl ::vstd::std_specs::cmp::PartialEqSpecImpl for TypePath {
 
 
 //@fn attr.rs MemberAttrs::iter_for_kind_core
-//@props C05,C12
+//@props C05,C12,C16
 //@spec
     ensures r.items() == sfilter(refs(self.attrs@), p_kind(*kind, fallible)).map_values(core_of()), // #cores-of-that-kind
 //@closure 0
@@ -189,7 +189,7 @@ impl ::vstd::std_specs::cmp::PartialEqSpecImpl for TypePath {
 //@end
 
 //@fn attr.rs DataTypeAttrs::iter_for_kind_core
-//@props C04,C12
+//@props C04,C12,C16
 //@spec
     ensures r.items() == sfilter(refs(self.attrs@), p_tkind(*kind, fallible)).map_values(tcore_of()), // #cores-of-that-kind
 //@closure 0
@@ -197,7 +197,7 @@ impl ::vstd::std_specs::cmp::PartialEqSpecImpl for TypePath {
 //@end
 
 //@fn attr.rs MemberAttrs::field_attr
-//@props C05,C06
+//@props C05,C06,C16
 //@spec
     ensures r == spec_field_attr(self, *kind, fallible, *container_ty), // #dedicated-then-default-of-that-kind
 //@closure 0
@@ -209,7 +209,7 @@ impl ::vstd::std_specs::cmp::PartialEqSpecImpl for TypePath {
 //@end
 
 //@fn attr.rs MemberAttrs::field_attr_core
-//@props C05,C06
+//@props C05,C06,C16
 //@spec
     ensures r == spec_field_core(self, *kind, fallible, *container_ty), // #dedicated-then-default-of-that-kind
 //@closure 0
@@ -243,7 +243,7 @@ impl ::vstd::std_specs::cmp::PartialEqSpecImpl for TypePath {
 //@end
 
 //@fn attr.rs MemberAttrs::applicable_field_attr
-//@props C05,C15
+//@props C05,C15,C16
 //@spec
     ensures r == spec_applicable_field(self, *kind, fallible, *container_ty), // #validation-view-of-the-chain
 //@closure 0
